@@ -868,6 +868,13 @@ func appendField(b []byte, f field) []byte {
 	return b
 }
 
+// SetHook installs (or removes, with nil) the fault hook.
+func (f *Fake) SetHook(h func(ci *CallInfo) *AppError) {
+	f.mu.Lock()
+	defer f.mu.Unlock()
+	f.Hook = h
+}
+
 // Reset drops all state.
 func (f *Fake) Reset() {
 	f.mu.Lock()
